@@ -554,6 +554,9 @@ def cases(ctx):
         yield {"kind": "sdk-walk", "steps": rng.choice([30, 60]), "seed": rng.randrange(2**31)}
     # documented witness: stop then re-register the same id on the same controller
     if ctx.shard == 0:
+        for apps in ([0, 1], [1, 0], [2, 0, 1], [1, 2]):
+            for v in (0, 1):
+                yield {"kind": "same-program", "apps": apps, "v": v}
         yield {"kind": "walk", "ops": [["init", "n0", 0, 2], ["alloc", "n0", 0, 1], ["write", "n0", 0, 3], ["stop", "n0", 0],
                                        ["init", "n0", 0, 2], ["alloc", "n0", 0, 1], ["stop", "n0", 0], ["init", "n0", 0, 1]]}
         # responses whose hand-over fails loudly: (a) the qubit is mapped, then storing the information fails - the response
@@ -565,6 +568,49 @@ def cases(ctx):
                                        ["deliver", "n0"], ["write", "n0", 1, 1], ["stop", "n0", 1], ["init", "n0", 1, 2]]}
         yield {"kind": "walk", "ops": [["init", "n0", 0, 1], ["init", "n0", 1, 1], ["recvnw", "n0", 0, 0], ["recv", "n0", 1, 0], ["deliver", "n0"],
                                        ["deliver", "n0"], ["write", "n0", 1, 1], ["stop", "n0", 0], ["early", "n0", 1, 0], ["recv", "n0", 1, 0]]}
+
+
+def _same_program(ctx, case):
+    """Several applications of one node run the SAME program (byte-identical instructions: same socket, same qubit id, same
+    arrays - instances of one application class) and are suspended in its wait at the same time. The pairs arrive one by one:
+    pair j belongs to the j-th application that asked, and to nobody else."""
+    _state["viol"] = None
+    w = World()
+    n = w.nodes["n0"]
+    ex = n["ex"]
+    apps, v = case["apps"], case["v"]
+    for a in sorted(apps):
+        do_op(w, ("init", "n0", a, 2))
+    text = f"array 10 @5\narray 1 @6\nstore {v} @6[0]\nrecv_epr(9,77) 6 5\nwait_all @5[0:10]\nret_arr @5\n"
+    for a in apps:
+        r = w.send("n0", sub_msg(a, text), a)
+        if r != "blocked":
+            ctx.fail(case, f"same program sent by applications {apps}: the subroutine of application {a} ends as {r} instead of waiting for its pair")
+            return ctx.case(case, True)
+        n["requests"].append((a, 77))
+    for j, a in enumerate(apps):
+        before = {b: snapshot_app(ex, "n0", b) for b in apps if b != a}
+        res = w.deliver_keep("n0")
+        ctx.count("same_program_deliveries")
+        where = f"same program sent by applications {apps} (all waiting), pair {j} delivered -> {res}"
+        err = _state["viol"] or check_invariants(w, ctx, where)
+        if err:
+            ctx.fail(case, f"{where}: {err}" if err is _state["viol"] else err)
+            return ctx.case(case, True)
+        mine = snapshot_app(ex, "n0", a)
+        got = mine["arrays"].get(5)
+        if mine["unit"][v] is None or got is None or any(x is None for x in got):
+            ctx.fail(case, f"{where}: the pair belongs to application {a} (the {j}-th to ask), whose virtual qubit {v} is "
+                           f"{'mapped' if mine['unit'][v] is not None else 'NOT mapped'} and whose result array is {got}")
+            return ctx.case(case, True)
+        for b, snap in before.items():
+            now = snapshot_app(ex, "n0", b)
+            if now != snap:
+                diff = [k for k in snap if snap[k] != now[k]]
+                ctx.fail(case, f"{where}: the pair belongs to application {a}, but application {b} changed ({', '.join(diff)}): "
+                               f"{ {k: (snap[k], now[k]) for k in diff} }")
+                return ctx.case(case, True)
+    ctx.case(case, True)
 
 
 def _sdk_walk(ctx, case):
@@ -642,6 +688,8 @@ def run_case(ctx, case):
         _state["viol"] = None
         _sdk_walk(ctx, case)
         return ctx.case(case, True)
+    if case["kind"] == "same-program":
+        return _same_program(ctx, case)
     if case["kind"] == "walk":
         err, info = run_history(ctx, [tuple(o) for o in case["ops"]])
         if err:
